@@ -108,6 +108,10 @@ def insn_level(chk, exe, oracle, infos, lines, wd, tag='insn', cflags=('-O1',)):
             continue
         if c['exp'] == 'nodoc':
             ref = ldref.get(c['id'], {})
+            if not ref.get('native'):
+                # no host-compiler result: the operation is undefined in C as in MIR (LD2I out of range): nothing to compare
+                chk.dist('oracle', 'long-double-undefined-skipped')
+                continue
             chk.dist('oracle', 'interp+native-long-double')
             for which in ('interp', 'native'):
                 rt = ref.get(which)
